@@ -801,7 +801,12 @@ def _same_value(x, y, depth=0):
     try:
         from xlcalculator.xlfunctions import func_xltypes
         if isinstance(x, func_xltypes.ExcelType):
+            if isinstance(x.value, float) and isinstance(y.value, float):
+                # (floating-point rounding is outside the interpreter's model: builtin sum() is compensated, etc.)
+                return x.value == y.value or x.value != x.value or abs(x.value - y.value) <= 1e-12 * max(abs(x.value), abs(y.value))
             return type(x.value) is type(y.value) and (x.value == y.value or x.value != x.value)
+        if isinstance(x, float):
+            return x == y or abs(x - y) <= 1e-12 * max(abs(x), abs(y))
         r = (x == y)
         return bool(r) if isinstance(r, bool) else True
     except Exception:
